@@ -115,7 +115,7 @@ def finding_scenario(sc):
 
 
 def match_known(f, case, verdict):
-    return f.get("id") == "withdrawn-collision" and verdict.get("clause", "").startswith("P3") and verdict.get("witness") is True
+    return f.get("id") == "withdrawn-collision" and verdict.get("clause", "")[:2] in ("P2", "P3") and verdict.get("witness") is True
 
 
 def run(tier, seed, replay=None):
